@@ -446,7 +446,7 @@ func clip(b []byte) []byte {
 }
 
 func TestC14(t *testing.T) {
-	vh.Drive(t, vh.Spec[Case]{Name: "cuts", Quick: 4000, Thorough: 150000, Gen: genCase, Run: runCase,
+	vh.Drive(t, vh.Spec[Case]{Name: "cuts", Quick: 12000, Thorough: 150000, Gen: genCase, Run: runCase,
 		Sample: func(c Case) any {
 			f, ok := build(c)
 			if !ok {
